@@ -313,6 +313,34 @@ func healthStream(cfg *Config) *hx.Stats {
 			}
 			runCheck(p, "double-reference@"+hx.IDStr(id), x, len(x.roots)+1, "double-reference")
 		}
+		// (c') both references sit in ONE slab (two elements of the same data slab; one of them
+		//      possibly behind a wrapper): the target is a fresh large-value slab
+		for variant := 0; variant < 3; variant++ {
+			x := buildWorld(seed, committed)
+			ref, err := atree.NewStorableSlab(x.ps, hx.MkAddr(1), hx.TV{Size: 20, Pay: 777}, 20)
+			if err != nil {
+				panic(err)
+			}
+			target := atree.SlabID(ref.(atree.SlabIDStorable))
+			b, err := atree.NewArray(x.ps, hx.MkAddr(1), hx.TI(9))
+			if err != nil {
+				panic(err)
+			}
+			_ = b.Append(hx.TV{Size: 5, Pay: 1})
+			switch variant {
+			case 0:
+				_ = b.Append(RefV{target})
+				_ = b.Append(RefV{target})
+			case 1:
+				_ = b.Append(hx.SomeValue{V: RefV{target}})
+				_ = b.Append(RefV{target})
+			default:
+				_ = b.Append(RefV{target})
+				_ = b.Append(hx.TV{Size: 7, Pay: 2})
+				_ = b.Append(hx.SomeValue{V: hx.SomeValue{V: RefV{target}}})
+			}
+			runCheck(p, fmt.Sprintf("double-reference-same-slab%d@%s", variant, hx.IDStr(target)), x, len(x.roots)+1, "double-reference")
+		}
 		// (d) a reference to a slab owned by a different address
 		for _, id := range pick(all, 4) {
 			x := buildWorld(seed, committed)
